@@ -421,6 +421,11 @@ def generate():
         retry = ('cmp::Ordering::Less=>{leterror=UnixError::last();ifmatches!(error,UnixError::Errno(libc::EINTR)){continue;}returnErr(error);},' in
                  re.sub(r'\s+', '', lbody))
         out.append(f"def shape_followupRetriesEintr : Bool := {'true' if retry else 'false'}  -- false: `Less => return Err(UnixError::last())` whatever the errno")
+        # …and the retry starts where the interrupted read started: the buffer length, raised to end_pos before the read, is put
+        # back after *every* read, whatever it returned (`set_len(write_pos + max(result, 0))`, not guarded by the sign of the result)
+        restore = bool(re.search(r'libc::recv\(dedicated_rx\.fd\.get\(\),main_data_buffer\[write_pos\.\.\]\.as_mut_ptr\(\)as\*mutc_void,end_pos-write_pos,0,\);'
+                                 r'main_data_buffer\.set_len\(write_pos\+cmp::max\(result,0\)asusize\);result\};', re.sub(r'\s+', '', lbody)))
+        out.append(f"def shape_followupRestoresLen : Bool := {'true' if restore else 'false'}  -- false: the length stays at end_pos after a read that returned an error")
         # truncated message handling: legacy returns ChannelClosed; repaired code receives the next message
         m = re.search(r'cmp::Ordering::Equal\s*=>\s*return\s+Err\(UnixError::ChannelClosed\)', recv)
         out.append(f"def recvTruncatedIsClosed : Bool := {'true' if m else 'false'}")
@@ -868,9 +873,9 @@ def generate():
         out.append(f"def routerRunArms : Nat := {len(re.findall(r'IpcSelectionResult::', run))}")
         flat = re.sub(r'\s+', '', run)
         # the wake-up arm: clear the flag, then serve the queue until it is empty
-        i_clear = flat.find('self.wakeup_pending.store(false,Ordering::SeqCst);')
-        i_loop = flat.find('whileletOk(msg)=self.msg_receiver.try_recv(){')
-        out.append(f"def vOneMsgPerWake : Bool := {'false' if 0 <= i_clear < i_loop else 'true'}  -- false: flag cleared, then `while let Ok(msg) = try_recv()`")
+        # (inside the wake-up arm, directly in front of the loop and nowhere else: cleared later, a request queued in between is never announced)
+        arm = 'IpcSelectionResult::MessageReceived(id,_)ifid==self.msg_wakeup_id=>{self.wakeup_pending.store(false,Ordering::SeqCst);whileletOk(msg)=self.msg_receiver.try_recv(){'
+        out.append(f"def vOneMsgPerWake : Bool := {'false' if arm in flat and flat.count('wakeup_pending.store(false') == 1 else 'true'}  -- false: flag cleared, then `while let Ok(msg) = try_recv()`")
         # the Shutdown arm: handlers cleared, then acknowledged, then `return`
         m = re.search(r'RouterMsg::Shutdown\(sender\)=>\{(.*?)\},', flat)
         arm = m.group(1) if m else ''
